@@ -309,6 +309,11 @@ nni_http_req_parse(nng_http *conn, void *buf, size_t n, size_t *lenp)
 			req->data.parsed = true;
 			rv               = http_req_parse_line(conn, line);
 		}
+		if (rv != 0) {
+			// A line that does not parse is the end of it: the
+			// next line must not make us forget about it.
+			break;
+		}
 	}
 
 	if (rv != NNG_EAGAIN) {
